@@ -16,7 +16,7 @@ Next == UNCHANGED vars
 Spec == Init /\ [][Next]_vars
 R == Rebuild(prog, h)
 Laws == /\ \A n \in DOMAIN h : R[n].kind = h[n].kind                                     \* same container types
-        /\ (prog \in {0, 6} => R = h)                      \* (no empty tuples in well-formed input heaps)                                                     \* default callbacks: an equal copy
+        /\ (prog \in {0, 6} => R = MarkEmpty(h))           \* default callbacks: an equal copy (the one empty tuple / frozenset by value)
         /\ \A n \in DOMAIN h : Len(R[n].items) <= Len(h[n].items)
         /\ (prog = 3 => \A n \in DOMAIN h : Len(R[n].items) = Len(h[n].items))
 Emit == PrintT(<<"T", ToJson([prog |-> prog, heap |-> [n \in 1..N |-> h[n]], result |-> [n \in 1..N |-> R[n]],
